@@ -29,4 +29,9 @@ def _one(key, repo, reg, fct, verbose):
                 if g["witness"] is not None:
                     print("      witness:", json.dumps(g["witness"], default=str)[:600])
 
-main()
+if __name__ == "__main__":
+    import os as _os
+    if _os.environ.get("PYTHONHASHSEED") != "0":      # same premise order on every run (see ./check)
+        _os.environ["PYTHONHASHSEED"] = "0"
+        _os.execv(sys.executable, [sys.executable, "-m", "pyvc.cli"] + sys.argv[1:])
+    main()
